@@ -25,6 +25,11 @@
 // flattening of nested multi row groups (Cursor/Nested.v) and, in
 // async read mode, asyncPages under schedules drawn by the model
 // (Cursor/AsyncPages.v).
+//
+// The other public types with a SeekToRow method are in derived.go (merged and
+// converted row groups and row readers, buffers; forward-only seekers against
+// Cursor/Forward.v) and variant.go (the columnar variant reader, against
+// Cursor/VariantLeaves.v); derived_run.go generates their histories.
 package main
 
 import (
@@ -229,8 +234,8 @@ func c08FlushSizes(s string) ([]int, error) {
 // rows, "g" Reader.Read of one row, "s<k>" SeekToRow(k), "l" load the offset
 // index (ColumnChunk.OffsetIndex), "x" Reset.
 type c08Case struct {
-	File   c08FileParams `json:"file"`
-	Open   c08Open       `json:"open"`
+	File   c08FileParams `json:"file,omitzero"`
+	Open   c08Open       `json:"open,omitzero"`
 	Target string        `json:"target"` // pages | rows | reader | generic | multipages | multirows | columnpages
 	RG     int           `json:"row_group"`
 	Col    int           `json:"column"`
@@ -249,6 +254,10 @@ type c08Case struct {
 	// columnpages: Column.PagesFrom(a reader over the bytes of the file)
 	// instead of Column.Pages()
 	From bool `json:"pages_from,omitempty"`
+	// readers that are not read straight from the file of the case (derived.go,
+	// variant.go): merged / converted row groups and row readers, buffers, the
+	// columnar variant reader
+	Der *c08Der `json:"derived,omitempty"`
 }
 
 // c08BuildNest combines the row groups as the nest expression says.
@@ -586,10 +595,15 @@ func c08SplitRows(vals []parquet.Value) [][]parquet.Value {
 }
 
 func c08PageValues(pg parquet.Page) ([]parquet.Value, error) {
-	vals := make([]parquet.Value, pg.NumValues())
+	// to the end of the value reader (the NumValues of the page of a RowBuffer
+	// leaves the nulls out)
+	vals := make([]parquet.Value, pg.NumValues()+1)
 	vr := pg.Values()
 	n := 0
-	for n < len(vals) {
+	for n < 1<<22 {
+		if n == len(vals) {
+			vals = append(vals, make([]parquet.Value, len(vals))...)
+		}
 		k, err := vr.ReadValues(vals[n:])
 		n += k
 		if err != nil {
@@ -615,8 +629,55 @@ func c08RunPages(cc parquet.ColumnChunk, N, off int64, cs *c08Case, res *c08Resu
 // c08RunPagesOn runs a history on a page reader over N rows; loadIndex (nil:
 // not available) loads the offset index of the chunk underneath.
 func c08RunPagesOn(pages parquet.Pages, loadIndex func() error, N, off int64, cs *c08Case, res *c08Result) {
+	c08RunPagesExp(pages, loadIndex, N, off, cs, res, nil)
+}
+
+// c08PageExp: what the pages of a derived column hold: the id of the row at
+// every position and the column of c08Row whose values they are (-1: a column
+// that the source lacks: one null per row).
+type c08PageExp struct {
+	ids []int64
+	col int
+}
+
+func c08RunPagesExp(pages parquet.Pages, loadIndex func() error, N, off int64, cs *c08Case, res *c08Result, px *c08PageExp) {
 	defer pages.Close()
 	pos := int64(0)
+	expCol := cs.Col
+	idAt := func(p int64) int64 { return off + p }
+	posOf := func(id int64) int64 { return id - off }
+	if px != nil {
+		expCol = px.col
+		idAt = func(p int64) int64 {
+			if p < 0 || p >= int64(len(px.ids)) {
+				return -1
+			}
+			return px.ids[p]
+		}
+		posOf = func(id int64) int64 {
+			for p, x := range px.ids {
+				if x == id {
+					return int64(p)
+				}
+			}
+			return -1
+		}
+	}
+	expect := func(p int64) []c08Cell {
+		if expCol < 0 {
+			return []c08Cell{{null: true}}
+		}
+		return c08Expect(expCol, idAt(p))
+	}
+	rowOf := func(vals []parquet.Value) int64 {
+		if expCol < 0 {
+			return -1
+		}
+		if id := c08RowOf(expCol, vals); id >= 0 {
+			return posOf(id)
+		}
+		return -1
+	}
 	// readPage: one ReadPage; false when it returned an error
 	readPage := func(what string) bool {
 		pg, err := pages.ReadPage()
@@ -635,12 +696,12 @@ func c08RunPagesOn(pages parquet.Pages, loadIndex func() error, N, off int64, cs
 		rows := c08SplitRows(vals)
 		first := int64(-1)
 		if len(rows) > 0 {
-			first = c08RowOf(cs.Col, rows[0]) - off
+			first = rowOf(rows[0])
 		}
 		good := verr == nil && int64(len(rows)) == n && n > 0 && pos+n <= N
 		if good {
 			for j, rv := range rows {
-				exp := c08Expect(cs.Col, off+pos+int64(j))
+				exp := expect(pos + int64(j))
 				if len(exp) != len(rv) {
 					good = false
 					break
@@ -651,8 +712,8 @@ func c08RunPagesOn(pages parquet.Pages, loadIndex func() error, N, off int64, cs
 					}
 				}
 				if !good {
-					if r := c08RowOf(cs.Col, rv); r >= 0 && first < 0 {
-						first = r - off - int64(j)
+					if r := rowOf(rv); r >= 0 && first < 0 {
+						first = r - int64(j)
 					}
 					break
 				}
@@ -663,7 +724,7 @@ func c08RunPagesOn(pages parquet.Pages, loadIndex func() error, N, off int64, cs
 			res.outs = append(res.outs, fmt.Sprintf("p%x.%x", pos, n))
 		} else {
 			res.outs = append(res.outs, fmt.Sprintf("p?%d.%d", first, n))
-			res.fail("wrong-rows", "%s ReadPage: expected rows starting at %d, got a page of %d rows (%d row value groups) that starts at row %d (column %s)", what, pos, n, len(rows), first, c08ColNames[cs.Col])
+			res.fail("wrong-rows", "%s ReadPage: expected rows starting at %d, got a page of %d rows (%d row value groups) that starts at row %d (column %s)", what, pos, n, len(rows), first, c08ColName(expCol))
 		}
 		pos += n
 		return true
@@ -733,9 +794,31 @@ type c08RowsTarget interface {
 }
 
 type c08RowReader struct {
-	r   parquet.Rows
+	r   c08Rows
 	off int64
 	buf []parquet.Row
+	// derived readers: the id of the row expected at every position (nil: the
+	// position itself, plus off) and how a row is compared with the row of an
+	// id (nil: c08CheckRow)
+	ids   []int64
+	check func(row parquet.Row, id int64) string
+}
+
+// c08Rows is what a row reader under test offers (parquet.Rows, or the
+// RowReader + RowSeeker of ConvertRowReader).
+type c08Rows interface {
+	parquet.RowReader
+	parquet.RowSeeker
+}
+
+func (t *c08RowReader) idAt(p int64) int64 {
+	if t.ids == nil {
+		return t.off + p
+	}
+	if p < 0 || p >= int64(len(t.ids)) {
+		return -1
+	}
+	return t.ids[p]
 }
 
 func c08CheckRow(row parquet.Row, r int64) string {
@@ -770,8 +853,16 @@ func (t *c08RowReader) read(n int, first int64) (int, error, string) {
 	if cnt < 0 || cnt > n {
 		return cnt, err, fmt.Sprintf("ReadRows returned %d for %d rows", cnt, n)
 	}
+	check := t.check
+	if check == nil {
+		check = c08CheckRow
+	}
 	for j := 0; j < cnt; j++ {
-		if bad := c08CheckRow(rows[j], t.off+first+int64(j)); bad != "" {
+		id := t.idAt(first + int64(j))
+		if id < 0 {
+			return cnt, err, fmt.Sprintf("row %d of the batch: a row at position %d, beyond the last row", j, first+int64(j))
+		}
+		if bad := check(rows[j], id); bad != "" {
 			return cnt, err, fmt.Sprintf("row %d of the batch: %s", j, bad)
 		}
 	}
@@ -801,7 +892,13 @@ func (t *c08RowReader) reset() bool {
 	}
 	return false
 }
-func (t *c08RowReader) close() { t.r.Close() }
+func (t *c08RowReader) close() {
+	// (the reader of ConvertRowReader is an io.Closer too: its Close used to
+	// dereference an embedded interface that is nil, repaired in 0ed8efd)
+	if cl, ok := t.r.(io.Closer); ok {
+		cl.Close()
+	}
+}
 
 type c08GenericReader struct {
 	r   *parquet.GenericReader[c08Row]
@@ -871,6 +968,7 @@ func (t *c08GenericReader) close()             { t.r.Close() }
 func c08RunRows(t c08RowsTarget, N int64, cs *c08Case, res *c08Result) {
 	defer t.close()
 	pos := int64(0)
+	fwd := c08ForwardOnly(cs.Target)
 	for i, op := range cs.Ops {
 		code, arg := c08ParseOp(op)
 		switch {
@@ -933,11 +1031,22 @@ func c08RunRows(t c08RowsTarget, N int64, cs *c08Case, res *c08Result) {
 		case code == 's':
 			err := t.seek(arg)
 			e := c08Err(err)
-			res.outs = append(res.outs, e)
-			if err != nil {
-				res.fail("error", "op %d SeekToRow(%d) on %d rows: unexpected error %v", i, arg, N, err)
-			} else {
+			switch {
+			case err == nil:
+				res.outs = append(res.outs, e)
 				pos = arg
+			case fwd && arg < pos:
+				// a reader that documents forward-only seeking refuses to go
+				// back: the position is unchanged
+				res.outs = append(res.outs, "b")
+			case fwd && e == "e" && arg >= N:
+				// a forward seek made by reading reached the end: that is where a
+				// sequential reader skipping to the row is
+				res.outs = append(res.outs, "e")
+				pos = N
+			default:
+				res.outs = append(res.outs, e)
+				res.fail("error", "op %d SeekToRow(%d) on %d rows at row %d: unexpected error %v", i, arg, N, pos, err)
 			}
 		case code == 'x':
 			if !t.reset() {
@@ -955,10 +1064,13 @@ func c08RunRows(t c08RowsTarget, N int64, cs *c08Case, res *c08Result) {
 // c08Exec runs the history of a case on the implementation.
 func c08Exec(cs *c08Case) (res *c08Result, b *c08Built) {
 	res = &c08Result{}
-	b, err := c08Build(cs.File)
-	if err != nil {
-		res.fail("file", "cannot build or read the file sequentially: %v", err)
-		return res, nil
+	needsFile := c08NeedsFile(cs)
+	if needsFile {
+		var err error
+		if b, err = c08Build(cs.File); err != nil {
+			res.fail("file", "cannot build or read the file sequentially: %v", err)
+			return res, nil
+		}
 	}
 	body := func() {
 		defer func() {
@@ -966,10 +1078,13 @@ func c08Exec(cs *c08Case) (res *c08Result, b *c08Built) {
 				res.fail("panic", "panic: %v", r)
 			}
 		}()
-		f, err := c08OpenFile(b, cs.File, cs.Open)
-		if err != nil {
-			res.fail("file", "open: %v", err)
-			return
+		var f *parquet.File
+		if needsFile {
+			var err error
+			if f, err = c08OpenFile(b, cs.File, cs.Open); err != nil {
+				res.fail("file", "open: %v", err)
+				return
+			}
 		}
 		switch cs.Target {
 		case "pages":
@@ -1030,7 +1145,9 @@ func c08Exec(cs *c08Case) (res *c08Result, b *c08Built) {
 			t := &c08GenericReader{r: parquet.NewGenericReader[c08Row](f)}
 			c08RunRows(t, b.total, cs, res)
 		default:
-			res.fail("bad-op", "unknown target %q", cs.Target)
+			if !c08ExecDerived(cs, b, f, res) {
+				res.fail("bad-op", "unknown target %q", cs.Target)
+			}
 		}
 	}
 	if cs.Open.Async {
@@ -1122,7 +1239,10 @@ func c08Modelled(cs *c08Case, res *c08Result) *c08Case {
 // the current code for every target (page cursor; rowGroupRows over the five
 // column cursors; multiPages; columnPages; reader/Reader/GenericReader over the
 // row groups).
-func c08Request(cs *c08Case, b *c08Built) string {
+func c08Request(cs *c08Case, b *c08Built, res *c08Result) string {
+	if c08IsDerived(cs.Target) {
+		return c08DerivedRequest(cs, b, res)
+	}
 	m := "idx"
 	if cs.Open.SkipIndex {
 		m = "noidx"
@@ -1216,6 +1336,12 @@ func c08Without(cs *c08Case, op string) *c08Case {
 
 func c08Class(cs *c08Case, kind string) string {
 	cl := cs.Target + "-" + kind
+	if cs.Target == "merged" && cs.Der != nil {
+		// which of the readers of merged row groups
+		if mb, err := c08BuildMerged(cs.Der); err == nil {
+			cl = cs.Target + "-" + mb.kind + "-" + kind
+		}
+	}
 	if cs.Nest != "" {
 		cl += "-nested"
 	}
@@ -1242,10 +1368,13 @@ func c08Check(c *core.Ctx, cs *c08Case) string {
 		c.Violation(c08Class(cs, res.kind), fmt.Sprintf("%s (%s, %d ops)", res.what, cs.Target, len(cs.Ops)), cs)
 		return res.kind
 	}
-	if b != nil && c.HasOracle() {
+	if (b != nil || !c08NeedsFile(cs)) && c.HasOracle() {
 		rcs := cs
 		cs = c08Modelled(cs, res)
-		req := c08Request(cs, b)
+		req := c08Request(cs, b, res)
+		if req == "" {
+			return ""
+		}
 		want := c.Ask(req)
 		got := strings.Join(res.outs, ",")
 		if len(res.outs) == 0 {
@@ -1516,7 +1645,7 @@ func c08CoqNats(xs []int64) string {
 }
 
 func runC08(c *core.Ctx) {
-	c.Res.Rule = "files of rows (id, optional, list, dictionary string, optional leaf in an optional group; every value identifies its row; the five columns have different page layouts) written with small pages (PageBufferSize 16..96), 1..4 row groups, data pages v1 and v2; also row groups of uneven sizes (Flush), unencrypted and encrypted (encrypted footer / plaintext footer, footer key only / column keys); opened with/without SkipPageIndex, sync/async, ReadBufferSize default/16/64/300/65536. Histories over {ReadPage | ReadRows(n in 1,3,64,1000) | Reader.Read(one row), SeekToRow(k: 0, page and row-group boundaries +-1, N-1, N, N+3, random), load the offset index, Reset}: a corpus (the repaired defects first), ALL histories of length 4 (quick) / 5 (thorough) over a 9..12 letter alphabet on 22-row files, random histories up to length 40 on 300-row files; run on ColumnChunk.Pages (every column), RowGroup.Rows, NewReader (ReadRows and Read), NewGenericReader (Read), Column.Pages() / PagesFrom of every leaf column of the file (columnPages: one page cursor per row group; histories with backward seeks out of a row group that has been read from), and the column pages (multiPages) and rows of MultiRowGroup over all row groups, flat and nested 1..4 levels deep in fixed and random shapes (the outputs must be those of the flat concatenation). Histories of Column.Pages() (all) and of the other page readers (half of the random ones) are followed by a sequential read to io.EOF whose pages must be the rows from the current position on. Every per-operation output (first row and count of the page/batch, io.EOF) is compared with the extracted model of that layer (page cursor; rowGroupRows over the page layouts of all five columns; multiPages; columnPages; reader/Reader/GenericReader), a sample also with the position specification, async page histories also with the asyncPages model under model-drawn schedules. A case = (file, open options, reader, history); non-trivial = at least 2 operations; distinct by the JSON of the case."
+	c.Res.Rule = "files of rows (id, optional, list, dictionary string, optional leaf in an optional group; every value identifies its row; the five columns have different page layouts) written with small pages (PageBufferSize 16..96), 1..4 row groups, data pages v1 and v2; also row groups of uneven sizes (Flush), unencrypted and encrypted (encrypted footer / plaintext footer, footer key only / column keys); opened with/without SkipPageIndex, sync/async, ReadBufferSize default/16/64/300/65536. Histories over {ReadPage | ReadRows(n in 1,3,64,1000) | Reader.Read(one row), SeekToRow(k: 0, page and row-group boundaries +-1, N-1, N, N+3, random), load the offset index, Reset}: a corpus (the repaired defects first), ALL histories of length 4 (quick) / 5 (thorough) over a 9..12 letter alphabet on 22-row files, random histories up to length 40 on 300-row files; run on ColumnChunk.Pages (every column), RowGroup.Rows, NewReader (ReadRows and Read), NewGenericReader (Read), Column.Pages() / PagesFrom of every leaf column of the file (columnPages: one page cursor per row group; histories with backward seeks out of a row group that has been read from), and the column pages (multiPages) and rows of MultiRowGroup over all row groups, flat and nested 1..4 levels deep in fixed and random shapes (the outputs must be those of the flat concatenation). Histories of Column.Pages() (all) and of the other page readers (half of the random ones) are followed by a sequential read to io.EOF whose pages must be the rows from the current position on. Every per-operation output (first row and count of the page/batch, io.EOF) is compared with the extracted model of that layer (page cursor; rowGroupRows over the page layouts of all five columns; multiPages; columnPages; reader/Reader/GenericReader), a sample also with the position specification, async page histories also with the asyncPages model under model-drawn schedules. Derived readers (derived.go, variant.go; the same rows, so every value identifies its row): the Rows() of MergeRowGroups over 1..4 sorted inputs (buffers, files, both; ids dealt round robin = overlapping key ranges -> mergedRowGroupRows, disjoint stretches -> concatenatingRowsWrapper over sorted segments, ids present in two inputs with and without DropDuplicatedRows, one input with DropDuplicatedRows -> deduplicated row group, two inputs of 1300 rows overlapping in 100 ids -> row-range views around a merged stretch; schema handed over or merged from the inputs = every input behind a conversion that reorders the columns) and ConvertRowReader (forwardRowSeeker; same schema / columns dropped, reordered and one added) over scripted in-memory readers (the c-th call returns at most caps[c mod len] rows, caps from {none,1,2,3,4,5,7,8,16,63,64}, io.EOF with or after the last rows) and over the rows of a file: these document forward-only seeking, so histories are ALL histories of length 3-4 (4-5 on a merged source) over {ReadRows 1/3/64 (convert: 1/3/4/64), SeekToRow(a few rows, the middle, N-1, N, N+3)} on 30/40-row sources (a backward seek must be refused with the position unchanged, or be honoured) and random forward-biased histories up to length 24 (seeks ahead by 0, 1, a few rows, about a batch, far, to N-1, N, N+3; reads of 1,3,7,64,1000 rows) on 100..300 and 2600-row sources, the batch buffer reused from read to read; seeks in both directions on the column pages of the merged row groups (multiPages over row-range views, converted pages, buffer pages; expected rows = the sequential read of the id column), on ConvertRowGroup(...).Rows() and its column pages (a column the source lacks included), on GenericBuffer / RowBuffer Rows() and the pages of their columns (all histories of length 3-4 on 22 rows, random ones on 1/100/300 rows); VariantReader over a shredded VARIANT column of 200 rows (typed / residual / partial object / list / unshredded field / null rows; pages of 128..1024 bytes, v1/v2): ALL histories of length 3-4 over {create cursor a / b / elements of l, Next 1/8/64, SeekToRow 0/9/100/199/200} and random histories of length 2..21 over {create one of 10 cursors, Next 1/3/8/64/1000, SeekToRow anywhere, N, beyond}: every window must be the rows from the position (typed vector of a = the row numbers) and the state of every cursor in effect must equal that of a fresh reader that holds the same cursors from the start and is read sequentially. Models of these layers: forwardRowSeeker / mergedRowGroupRows / concatenatingRowsWrapper over a reader with capped batches (Cursor/Forward.v; scripted: every output; merged: the observed batch length is the cap), the row window of VariantReader over lazily opened leaves (Cursor/VariantLeaves.v; the first row each typed leaf delivered, read off its first value), rowGroupRows / the page cursor over one-page columns for buffers and over the source layout for converted row groups. A case = (file, open options, reader, history); non-trivial = at least 2 operations; distinct by the JSON of the case."
 	var vm, vmRows, vmReader, vmNested, vmCP []string
 	// Column.Pages(): the column pages against run_cpages_indexed inside coqc
 	addVmCP := func(cs *c08Case) {
@@ -2075,10 +2204,11 @@ func runC08(c *core.Ctx) {
 			c.Note("class %s: %d failing histories in total (first one shrunk and reported)", cl, n)
 		}
 	}
-	c.Note("row-range views (row_range.go) have no exported constructor; they are reached only through the merge planner and are not exercised here")
+	c08RunDerivedAll(c)
+	c.Note("row-range views (row_range.go) have no exported constructor; they are reached through the merge planner: the merged row groups of shape `lone` (two inputs of 1300 rows whose key ranges overlap in 100 ids) are read through Rows() and through their column pages")
 	c.Note("async read mode: histories are run under the Go scheduler as it comes; the asyncPages model is run under schedules drawn by the oracle (2 per async page history) and must return the same outputs")
 
-	c.Vm("From Coq Require Import List Arith Bool.\nFrom PQ Require Import Cursor.Model Cursor.Multi Cursor.Nested Cursor.ColumnPages.\nImport ListNotations.")
+	c.Vm("From Coq Require Import List Arith Bool.\nFrom PQ Require Import Cursor.Model Cursor.Multi Cursor.Nested Cursor.ColumnPages Cursor.Forward.\nImport ListNotations.")
 	c.Vm("Definition out_eqb (a b : out) : bool :=\n  match a, b with\n  | Rows f c, Rows f' c' => (f =? f') && (c =? c')\n  | EOF, EOF | SeekOk, SeekOk | OutOfRange, OutOfRange | Done, Done => true\n  | _, _ => false\n  end.")
 	c.Vm("Fixpoint outs_eqb (a b : list out) : bool :=\n  match a, b with\n  | [], [] => true\n  | x :: a', y :: b' => out_eqb x y && outs_eqb a' b'\n  | _, _ => false\n  end.")
 	c.Vm("Definition cases : list (list nat * list op * list out) := [\n  " + strings.Join(vm, ";\n  ") + "].")
@@ -2095,8 +2225,13 @@ func runC08(c *core.Ctx) {
 	c.Vm("Definition nmismatches := filter (fun '(t, ops, outs) => negb (outs_eqb (run_nested_indexed t ops) outs)) ncases.")
 	c.Vm("Definition cpcases : list (list chunk * list op * list out) := [\n  " + strings.Join(vmCP, ";\n  ") + "].")
 	c.Vm("Definition cpmismatches := filter (fun '(chunks, ops, outs) => negb (outs_eqb (run_cpages_indexed chunks ops) outs)) cpcases.")
-	c.Vm("Definition M := Eval vm_compute in (length cases + length rcases + length xcases + length ncases + length cpcases, repeat tt (length mismatches + length rmismatches + length xmismatches + length nmismatches + length cpmismatches)).\nPrint M.")
-	c.Res.VmCases = len(vm) + len(vmRows) + len(vmReader) + len(vmNested) + len(vmCP)
+	// ConvertRowReader over scripted readers against run_fws (forwardRowSeeker)
+	c.Vm("Definition fout_eqb (a b : fout) : bool :=\n  match a, b with\n  | FRows f c e, FRows f' c' e' => (c =? c') && Bool.eqb e e' && ((c =? 0) || (f =? f'))\n  | FSeekOk, FSeekOk | FRefused, FRefused | FSeekEOF, FSeekEOF => true\n  | _, _ => false\n  end.")
+	c.Vm("Fixpoint fouts_eqb (a b : list fout) : bool :=\n  match a, b with\n  | [], [] => true\n  | x :: a', y :: b' => fout_eqb x y && fouts_eqb a' b'\n  | _, _ => false\n  end.")
+	c.Vm("Definition fcases : list (nat * bool * list nat * list fop * list fout) := [\n  " + strings.Join(c08VmFwd, ";\n  ") + "].")
+	c.Vm("Definition fmismatches := filter (fun '(n, eofl, caps, ops, outs) => negb (fouts_eqb (run_fws n eofl (cycle caps) ops) outs)) fcases.")
+	c.Vm("Definition M := Eval vm_compute in (length cases + length rcases + length xcases + length ncases + length cpcases + length fcases, repeat tt (length mismatches + length rmismatches + length xmismatches + length nmismatches + length cpmismatches + length fmismatches)).\nPrint M.")
+	c.Res.VmCases = len(vm) + len(vmRows) + len(vmReader) + len(vmNested) + len(vmCP) + len(c08VmFwd)
 }
 
 func replayC08(c *core.Ctx, raw json.RawMessage) {
